@@ -25,7 +25,7 @@ COMMENTS = ["// not a comment", "text // trailing", "/* block */", "//", "/// tr
 MDMETA = ["# heading", "## h2 `{n}`", "* bullet", "- item", "+ plus", "1. numbered", "> quote", "**bold**", "_em_ text",
           "`code`", "``double `tick` ``", "\\`escaped\\`", "\\*not em\\*", "***", "---", "===", "a | b", "line with two spaces  ",
           "[text](http://example.com)", "[text](http://example.com \"title\")", "<http://auto.link>", "![img](http://i/x.png)",
-          "[ref-style][r]", "[r]: http://example.com/ref", "[unknown ref]", "[`{n}`]", "~~~", "    indented four", "\tTabbed",
+          "[ref-style][r]", "[r]: http://example.com/ref", "[unknown ref]", "[`{n}`]", "    indented four", "\tTabbed",
           "trailing backslash\\", "&amp; &lt; &#35; &copy;", "emoji :) <3"]
 HTMLMETA = ["<b>bold</b>", "<i>unclosed", "<br/>", "<span class=\"x\">s</span>", "<img src=\"x.png\" alt=\"a\">",
             "a <em>b</em> c", "</div>", "<notatag", "x<y>z", "<code>`{n}`</code>", "<!-- closed comment -->", "<?php ?>"]
@@ -162,7 +162,7 @@ def run(c):
     if not impl:
         return
     stats = collections.Counter()
-    n = 160 if c.tier == "quick" else 2500
+    n = 140 if c.tier == "quick" else 2500
     cases = []          # (label, blocks)
     cp = os.path.join(VERIF, "corpus", "C29.txt")
     if os.path.exists(cp):
